@@ -61,6 +61,9 @@ def mutations(rnd, pl, enc, pool):
 
 def run(tier, rep):
     quick = tier == "quick"
+    from .. import decode_rec as _dr
+
+    _dr.MEMORYVIEW_BUFFERS = True       # C04: any buffer given to the static parser / the constructor
     rep.assumptions += ["TLC 1.8", "watchdog 20 s per case (inputs take milliseconds)"]
     bundle = de.real_bundle()
     de.mc_mini(rep, 10 if quick else 12, liveness=True)
